@@ -31,7 +31,8 @@ RULE = ("one PRNG; 45 % fold cases: conditions built from + - * (n-ary), unary -
         "globals, `with` identifiers, loop variables, module fields, function calls and literals (optionally inside `with` / `for any .. in`), regexps aimed at the "
         "operand's own value or at another operand's, compared with the verdict of every operand alone; 1/8 extra: loops (range, tuple, map, array) whose body has "
         "0-3 hoistable invariants and one nested variable-owning statement that uses the loop variable (for..in range/tuple/map, for..of, of with in/at, with, of "
-        "over an expression tuple), compiled with and without condition_optimization, 6 buffers. Non-trivial: every case (distinct by source text / operands).")
+        "over an expression tuple, a percentage quantifier computed from the loop variable, `#` `@` `!` `$` inside a for..of nested in the loop), compiled with and without "
+        "condition_optimization, 6 buffers; scans have an 8 s timeout, a case that neither compiles nor scans within 100 s ends the run naming the case. Non-trivial: every case (distinct by source text / operands).")
 
 KNOWN_DUMP_CLASSES = {"beyond-2^53", "i64-overflow"}   # classes of the repaired finding 10: a difference is a regression
 
@@ -235,8 +236,11 @@ MANIFEST = {
                    "feature sets (no optimisation features, pulley, no exact-atoms, no fast-regexp) in the thorough tier."),
     "level_note": ("Trusted: Coq kernel, translators gen_fold/gen_bounds/gen_fastscan, harness, hook verif_c03. Repaired after this check found them: "
                    "folding through f64 (8b83ae6a), fast scan changing verdicts of `N of (..) in (..)` (2deda6b6); their reproductions stay in the corpus. IR::minus folds with wrapping_neg since 1eeaceb7 (flag minus_wraps regenerated). "
-                   "Known finding: fast scan keeps the first match it verifies, which is not always the lowest one. "
-                   "Exact-atoms, FastVM/PikeVM, pulley and hoisting have no model: differential only. SIMD kernels not modelled."),
+                   "Known findings: fast scan keeps the first match it verifies, which is not always the lowest one; the expression of a percentage quantifier is not "
+                   "visited by the IR traversal, so hoisting / shift_vars ignore the loop variables in it (patch fixes/C03-1); `#` `@` `!` `$` of a for..of nested in a "
+                   "for..in are hoisted above the for..of (patch fixes/C03-2). Grouping of `matches` operands into regexp sets and the variable renumbering of hoisting are "
+                   "modelled (key soundness, shift injectivity; lists of variable-owning variants / shift_vars arms / traversed quantifiers regenerated by gen_hoist). "
+                   "Exact-atoms, FastVM/PikeVM, pulley and the choice of hoisting candidates have no model: differential only. SIMD kernels not modelled."),
     "technique": "Coq proofs over source-generated models of each optimisation + differential scans across run-time toggles and cargo feature sets",
     "design_ref": "DESIGN.md section 4, C03",
 }
